@@ -81,6 +81,17 @@ mod discharge {
         assert!(DecodedKey::RawKey(a) != DecodedKey::Unicode(c));
     }
 
+    /// A3e: char::from_u32 is Some(x as char) exactly on the Unicode scalar values, None on surrogates and above U+10FFFF
+    #[kani::proof]
+    fn char_from_u32_is_checked_cast() {
+        let x: u32 = kani::any();
+        let valid = x <= 0xD7FF || (0xE000 <= x && x <= 0x10FFFF);
+        match char::from_u32(x) {
+            Some(c) => assert!(valid && c as u32 == x),
+            None => assert!(!valid),
+        }
+    }
+
     /// A3b: char::from(u8) / u8.into() is the `as char` cast
     #[kani::proof]
     fn char_from_u8_is_cast() {
@@ -175,6 +186,18 @@ mod cex {
     #[kani::unwind(5)]
     fn events_decode() {
         events_with(2);
+    }
+
+    /// Panic search over key-event histories deeper than the relational scenarios (a counter or accumulator in the event
+    /// decoder that only traps after a particular sequence, e.g. an `unwrap` on a value built from several presses):
+    /// eight symbolic events, straight-line, panic / overflow checks only. Bounded (<= 8 events); never counted as proof.
+    #[kani::proof]
+    #[kani::unwind(10)]
+    fn events_deep() {
+        let mode: bool = kani::any();
+        let ks: [u8; 8] = kani::any();
+        let ss: [u8; 8] = kani::any();
+        assert!(scenario_events_deep(mode, ks, ss, false));
     }
 
     /// `pre_bits` is a constant of the harness so that CBMC knows how many bits are pending
